@@ -176,9 +176,42 @@ func Mkdir(name string, perm fs.FileMode) error {
 	return os.Mkdir(name, perm)
 }
 
-func Create(name string) (*os.File, error) {
-	if err := simple("Create", name, 0o666); err != nil {
+// fullDisk models a disk that fills up after the file was created: the real file is
+// created/truncated as asked (it stays empty), and the handle the program gets is /dev/full,
+// on which open and close succeed and every write fails with ENOSPC.
+func fullDisk(name string, flag int, perm fs.FileMode) (*os.File, error) {
+	f, err := os.OpenFile(name, flag, perm)
+	if err != nil {
 		return nil, err
+	}
+	_ = f.Close()
+	return os.OpenFile("/dev/full", os.O_WRONLY, 0)
+}
+
+func openFaulty(op, name string, flag int, perm fs.FileMode) (*os.File, bool, error) {
+	_, f := nextCall(op, name, perm, nil)
+	if f != nil {
+		switch f.Kind {
+		case "err", "partial-mkdir":
+			return nil, true, &fs.PathError{Op: "open", Path: name, Err: errnoOf(f.Err)}
+		case "create-then-err", "short", "write-enospc":
+			h, err := fullDisk(name, flag, perm)
+			return h, true, err
+		case "crash-before":
+			crash()
+		case "crash-torn", "crash-after":
+			if h, err := os.OpenFile(name, flag, perm); err == nil {
+				_ = h.Close()
+			}
+			crash()
+		}
+	}
+	return nil, false, nil
+}
+
+func Create(name string) (*os.File, error) {
+	if h, done, err := openFaulty("Create", name, os.O_RDWR|os.O_CREATE|os.O_TRUNC, 0o666); done {
+		return h, err
 	}
 	return os.Create(name)
 }
@@ -187,8 +220,8 @@ func OpenFile(name string, flag int, perm fs.FileMode) (*os.File, error) {
 	if flag&(os.O_WRONLY|os.O_RDWR|os.O_CREATE|os.O_TRUNC|os.O_APPEND) == 0 {
 		return os.OpenFile(name, flag, perm)
 	}
-	if err := simple("OpenFile", name, perm); err != nil {
-		return nil, err
+	if h, done, err := openFaulty("OpenFile", name, flag, perm); done {
+		return h, err
 	}
 	return os.OpenFile(name, flag, perm)
 }
@@ -257,8 +290,29 @@ func MkdirTemp(dir, pattern string) (string, error) {
 }
 
 func CreateTemp(dir, pattern string) (*os.File, error) {
-	if err := simple("CreateTemp", dir+"/"+pattern, 0o600); err != nil {
-		return nil, err
+	_, f := nextCall("CreateTemp", dir+"/"+pattern, 0o600, nil)
+	if f != nil {
+		switch f.Kind {
+		case "err", "partial-mkdir":
+			return nil, &fs.PathError{Op: "open", Path: dir + "/" + pattern, Err: errnoOf(f.Err)}
+		case "create-then-err", "short", "write-enospc":
+			h, err := os.CreateTemp(dir, pattern)
+			if err != nil {
+				return nil, err
+			}
+			name := h.Name()
+			_ = h.Close()
+			// the program must still see the temp file's name: hand out a handle on
+			// /dev/full through a symlink swap is not possible; instead fill-disk semantics
+			// are modelled by replacing the temp file with a symlink to /dev/full
+			_ = os.Remove(name)
+			if err := os.Symlink("/dev/full", name); err != nil {
+				return nil, err
+			}
+			return os.OpenFile(name, os.O_WRONLY, 0)
+		case "crash-before", "crash-torn", "crash-after":
+			crash()
+		}
 	}
 	return os.CreateTemp(dir, pattern)
 }
